@@ -266,8 +266,42 @@ class C03(E2EProp):
         return [("S-e2e-xhtml-positions", cases + fam_cases("x0", ["misc", "title", "tags"], T(tier, 2, 3), rng, None, T(tier, 500, 5000)),
                  "XHTML: every string <= %d over {< > & dq sq backslash e-acute astral NBSP} (and Sm/Bm/Em, escaped apostrophes) in %d text-bearing positions, lang en/fr/other, each paired with the same document holding a neutral word; family sequences; random" % (n, len(self.POSITIONS)))]
 
+    # parameters rendered at assignment and shown to the reader (D36): the text of the "go up" link of every page of a
+    # multi-file document, the subject of an EPUB
+    def param_stream(self, tier):
+        import html as _html
+        n = T(tier, 2, 3)
+        vals = [a for a in gen.all_strings(["<", ">", "&", "\"", "x", "\xe9"], n, 1)]
+        want, cases = {}, []
+        for a in vals:
+            q = '"' + a.replace('"', '""') + '"'
+            c1 = e2e.case_of("x2", ".X set xhtml-go-up %s\n.Ch T\nt\n" % q)
+            c2 = e2e.case_of("e3", ".X set document-title T\n.X set epub-uuid u\n.X set epub-subject %s\n.Ch T\nt\n" % q)
+            want[c1.split(" | ")[0]] = ("go-up", a)
+            want[c2.split(" | ")[0]] = ("subject", a)
+            cases += [c1, c2]
+
+        def oracle(case, go):
+            kind, a = want.get(case.split(" | ")[0], (None, None))
+            g = e2e.parse_go(go)
+            if kind is None or g[0] != "ok":
+                return None
+            files = {e2e.dec(k): e2e.dec(v) for k, v in g[1].items()}
+            if kind == "go-up":
+                page = next((v for k, v in files.items() if k.startswith("body-")), "")
+                m = re.search(r'<a href="index.html">(.*?)</a>', page)
+                seen = _html.unescape(m.group(1)) if m else None
+            else:
+                m = re.search(r'<dc:subject[^>]*>(.*?)</dc:subject>', files.get("EPUB/content.opf", ""))
+                seen = _html.unescape(m.group(1)) if m else None
+            if seen is not None and seen != a:
+                return "the reader sees %r where %r was written (%s)" % (seen, a, kind)
+            return None
+        return e2e.E2EStream("S-e2e-xhtml-params", "e2e", cases, oracle=oracle, exhaustive=True, nontrivial=nontrivial,
+                             describe="every string <= %d over {< > & dq x e-acute} as the text of the go-up link (multi-file) and as the EPUB subject: the character data seen equals the text written" % n)
+
     def streams(self, tier, rng):
-        sts = [esc_stream("html", tier, rng, "<>&\"'")] + C20().streams(tier, rng) + super().streams(tier, rng)
+        sts = [esc_stream("html", tier, rng, "<>&\"'")] + C20().streams(tier, rng) + [self.param_stream(tier)] + super().streams(tier, rng)
         prop = self
         st = sts[-1]
         orig_run = st.run
